@@ -184,7 +184,8 @@ fn one_case(seed: u64, i: u64) -> CaseOut {
                     out.class(if k < 0 { "addr:below_origin" } else { "addr:beyond_image" });
                     "\n".to_string()
                 };
-                if printed != expect {
+                // line terminator of the debugger's own output is not part of the property
+                if printed.trim_end_matches('\n') != expect.trim_end_matches('\n') {
                     out.violate(
                         if k >= 0 && k < n { "C17/assembly-text" } else { "C17/assembly-text-for-non-statement" },
                         i,
